@@ -15,7 +15,7 @@ NEG += [('MC_Views', 'MC_Views_neg_mark.cfg', 'to_nx forgets the complement mark
 import glob
 for f in sorted(glob.glob(os.path.join(tlcrun.SPEC, 'MC_*_probe.cfg'))):
     b = os.path.basename(f)
-    spec = {'MC_Let2_probe.cfg': 'MC_Ops2'}.get(b, b.replace('_probe.cfg', ''))
+    spec = {'MC_Let2_probe.cfg': 'MC_Ops2', 'MC_Dyn_protected_probe.cfg': 'MC_Dyn'}.get(b, b.replace('_probe.cfg', ''))
     NEG.append((spec, b, 'non-vacuity probe: no two-level diagram is ever built'))
 bad = 0
 for spec, cfg, what in NEG:
